@@ -1,4 +1,3 @@
-from html import escape
 from protocol_code_generator.generate.code_block import CodeBlock
 from protocol_code_generator.generate.object_code_generator import FieldData
 from protocol_code_generator.type.basic_type import BasicType
@@ -11,7 +10,7 @@ from protocol_code_generator.type.integer_type import IntegerType
 from protocol_code_generator.type.length import Length
 from protocol_code_generator.type.string_type import StringType
 from protocol_code_generator.type.struct_type import StructType
-from protocol_code_generator.util.docstring_utils import generate_docstring
+from protocol_code_generator.util.docstring_utils import escape_docstring_text, generate_docstring
 from protocol_code_generator.util.number_utils import try_parse_int
 
 
@@ -224,7 +223,7 @@ class FieldCodeGenerator:
             if self._array_field:
                 expression = f'tuple({expression})'
         elif isinstance(field_type, StringType):
-            expression = f'"{self._hardcoded_value}"'
+            expression = _string_literal(self._hardcoded_value)
         elif isinstance(field_type, BoolType):
             expression = "True" if self._hardcoded_value == "true" else "False"
         else:
@@ -294,7 +293,7 @@ class FieldCodeGenerator:
         result = CodeBlock()
 
         if self._comment is not None:
-            lines = map(str.strip, escape(self._comment, quote=False).split('\n'))
+            lines = map(str.strip, escape_docstring_text(self._comment).split('\n'))
             for line in lines:
                 if not result.empty:
                     result.add(' ')
@@ -437,7 +436,7 @@ class FieldCodeGenerator:
                     return "1"
                 raise RuntimeError(f'"{self._hardcoded_value}" is not a valid bool value.')
             elif isinstance(type_, StringType):
-                return f'"{self._hardcoded_value}"'
+                return _string_literal(self._hardcoded_value)
             else:
                 raise AssertionError("Unhandled BasicType")
         else:
@@ -715,6 +714,12 @@ class FieldCodeGeneratorBuilder:
             self._length_field,
             self._offset,
         )
+
+
+def _string_literal(value):
+    """Renders spec text as a Python string literal."""
+    escaped = value.replace('\\', '\\\\').replace('"', '\\"')
+    return f'"{escaped}"'
 
 
 def get_max_value_of(integer_type):
